@@ -95,7 +95,9 @@ def render_answers(case):
 
 
 def cli_args(case, root):
-    template = "%plan('plan')"
+    # the generous timeout keeps a loaded machine from turning a slow start of the lookup program into a template
+    # evaluation error (the tag's default is 3 s)
+    template = "%plan('plan', timeout_ms=120000)"
     args = ["-ah", "plan=" + PLAN, STRATEGY_FLAG[case["strategy"]]]
     args.append({"name": "--name", "path": "--path", "directory": "--directory"}[case["mode"]])
     if case["recursive"]:
@@ -105,7 +107,7 @@ def cli_args(case, root):
     if case["dry"]:
         args.append("--dry-run")
     if case["sorted"]:
-        args.append("--sort=int(%plan('order'))")
+        args.append("--sort=int(%plan('order', timeout_ms=120000))")
         if case["invert"]:
             args.append("-si")
     spelling = case.get("spelling", "abs")
